@@ -52,7 +52,7 @@ def trace_module(mod, optimize, B=None):
             mod.execute_full(MemoizingInterpreter(it, analyzer.finalize()))
         else:
             mod.execute_full(it)
-    except (AssertionError, ValueError, IndexError, KeyError, TypeError, NotImplementedError, AttributeError) as e:
+    except (Exception,) as e:
         err = type(e).__name__ + ': ' + str(e)[:200]
     return {'events': it._events, 'files': [list(s.getvalue()) for s in sinks], 'error': err,
             'final': {'module': err is None, 'axioms': [B.to_json(a) for a in declared_axioms(mod)],
@@ -252,6 +252,6 @@ def do_memo(req):
     out = 'ok'
     try:
         MemoizingInterpreter(it, {B.to_py(s) for s in req['S']}).pattern(B.to_py(req['p']))
-    except (AssertionError, ValueError, IndexError, KeyError, TypeError, NotImplementedError, AttributeError) as e:
+    except (Exception,) as e:
         out = 'raise:' + type(e).__name__
     return {'out': out, 'events': it._events, 'npre': npre, 'methods': [e['m'] for e in it._events[npre:]]}
